@@ -304,7 +304,13 @@ def task_generated(params, rec):
             with warnings.catch_warnings():
                 warnings.simplefilter("ignore")
                 g = ctx.trace(ns[f"g{i}"], *[getattr(numpy, d) for d in dts])
-                g = g.rewrite(fa.targets.numpy, rewrite)
+                # one program in three is printed without the algebraic rewrite: the raw node kinds (ge, gt, ne, x*1, select(True, ..) ...) that the
+                # rewriter would canonicalise away have static types too
+                if i % 3 == 2:
+                    g = g.rewrite(fa.targets.numpy)
+                    rec.count("programs:without-algebraic-rewrite")
+                else:
+                    g = g.rewrite(fa.targets.numpy, rewrite)
         except (NotImplementedError, AssertionError, TypeError, KeyError, AttributeError, ValueError, RuntimeError) as e:
             rec.count("refused:trace:" + type(e).__name__)
             continue
